@@ -353,8 +353,8 @@ fn write_phase<W: io::Write>(
 pub fn exec_write(tx: &mut Tx, spec: &FileSpec) -> Vec<u8> {
     let entries = spec.entries.materialize();
     let k = &spec.knobs;
-    if k.ctor == 2 {
-        let w = builder_of(k).memory();
+    if k.ctor == 2 || k.ctor == 3 {
+        let w = if k.ctor == 3 { Writer::memory() } else { builder_of(k).memory() };
         match write_phase(tx, w, &entries, 0) {
             Some(Some(v)) => v,
             _ => Vec::new(),
